@@ -1,5 +1,6 @@
 from outsourcer import Code, Yield
 
+from . import utils
 from .base import Expression
 from .constants import CALL, POS, RESULT, STATUS
 
@@ -47,7 +48,7 @@ class Call(Expression):
 
         func = _ParseFunction(Code(resolved_func), tuple(args), tuple(kwargs))
         func = out.var('func', func)
-        out += (STATUS, RESULT, POS) << Yield((CALL, func, POS))
+        out += (STATUS, RESULT, POS) << utils.call_rule(func, POS)
 
 
 class KeywordArg(Expression):
